@@ -63,28 +63,12 @@ theorem consumer_write_sees_generation (ctx : ACtx R) (objs : List AllocReq) (db
     exact key.2 r' (List.mem_filter.mp hr').1 hid
   · exact .inl ⟨rfl, _, rfl⟩
 
-/-! ## Every schedule -/
+/-! ## Every schedule
 
-/-- the pool: no request creates, updates or deletes providers; no request may create consumer `cu` -/
-theorem pool_evo (cfg : Config) (ops : List (Op R)) (hops : ∀ op ∈ ops, isProviderOp op = false) (cu : Nat)
-    (hnc : ∀ op ∈ ops, cu ∉ opCreates op) :
-    PoolAll (QEvo (R := R) (fun u => u ≠ cu)) (ops.map (prog cfg)) := by
-  intro p hp
-  obtain ⟨op, hop, rfl⟩ := List.mem_map.mp hp
-  exact prog_evo cfg op (hops op hop) (fun u hu e => hnc op hop (e ▸ hu))
-
-theorem wcons_start {db : DB R} (hU : Uniq db) {cu c0 : Nat} (hex : ∃ r ∈ db.consumers, r.uuid = cu ∧ r.id = c0) :
-    WCons cu c0 db := by
-  obtain ⟨r0, hr0, hu0, hid0⟩ := hex
-  refine ⟨ids_of_uniq hU, hid0 ▸ hU.freshCons r0 hr0, ?_⟩
-  intro r hr
-  constructor
-  · intro hu
-    have : r = r0 := Wf.L.eq_of_key_eq hU.consUuid hr hr0 (hu.trans hu0.symm)
-    rw [this, hid0]
-  · intro hid
-    have : r = r0 := Wf.L.eq_of_key_eq hU.consId hr hr0 (hid.trans hid0.symm)
-    rw [this, hu0]
+`carriesCons cu g op` (Lemmas/SchedConsTxn.lean): `op` is PUT /allocations/{cu}, POST /allocations or
+POST /reshaper at >= 1.28 with an entry for consumer `cu`; every entry for `cu` carries generation `g`
+and is non-empty.  `opCreates op`: the consumers `op` may create (entries with generation null or
+below 1.28). -/
 
 /-- **consumer_commit_sees_generation** (every schedule).  Consumer `cu` exists in the start state
 (internal id `c0`); no request in flight may create it.  If request `i` carries generation `g` for
@@ -100,7 +84,7 @@ theorem consumer_commit_sees_generation (cfg : Config) (ops : List (Op R))
       ConsAt c0 g (Prog.runSched pre db (ops.map (prog cfg))).1 ∧
       ConsPast c0 g (Prog.runSched (pre ++ [i]) db (ops.map (prog cfg))).1 :=
   commit_step_exists (fun s s' q h => WCons.evo (N := fun u => u ≠ cu) (fun h => h rfl) q h) i sched db _ _
-    (pool_evo cfg ops hops cu hnc) (wcons_start hU hex) (by rw [List.getElem?_map, hi]; rfl)
+    (pool_evo_cons cfg ops hops cu hnc) (wcons_start hU hex) (by rw [List.getElem?_map, hi]; rfl)
     (allocProg_commits cfg hc) a hia ha
 
 /-- what the property asks for consumers that exist in the start state: at most one of the requests
@@ -136,7 +120,7 @@ theorem at_most_one_success_same_consumer_generation_existing_partial (cfg : Con
     (fun s s' q h => WCons.evo (fun h => h rfl) q h)
     (fun s s' q hw hd => hd.evoG (q hw.1) hw.2.1)
     (fun s _ hc => consAt_not_past hc) (fun s s' _ hb => hb)
-    sched db _ (pool_evo cfg ops hops cu hnc) (wcons_start hU hex) ?_ ⟨opi, hi, hci⟩ ⟨opj, hj, hcj⟩ hia ha hjb hb
+    sched db _ (pool_evo_cons cfg ops hops cu hnc) (wcons_start hU hex) ?_ ⟨opi, hi, hci⟩ ⟨opj, hj, hcj⟩ hia ha hjb hb
   rintro k ⟨op, hk, hc⟩ q hq
   rw [List.getElem?_map, hk] at hq
   cases hq
@@ -176,21 +160,6 @@ theorem stale_consumer_generation_409 (ctx : ACtx R) (c : ConsumerReq) (k : ACtx
 
 /-! ## No lost update -/
 
-theorem prefix_of_lt {α : Type} {p1 p2 q1 q2 : List α} {x y : α} (h : p1 ++ x :: q1 = p2 ++ y :: q2)
-    (hl : p1.length < p2.length) : ∃ mid, p2 = p1 ++ x :: mid := by
-  induction p1 generalizing p2 with
-  | nil =>
-    cases p2 with
-    | nil => simp at hl
-    | cons z zs => simp only [List.nil_append, List.cons_append, List.cons.injEq] at h; exact ⟨zs, by rw [h.1]; rfl⟩
-  | cons a as ih =>
-    cases p2 with
-    | nil => simp at hl
-    | cons z zs =>
-      simp only [List.cons_append, List.cons.injEq] at h
-      obtain ⟨mid, hm⟩ := ih h.2 (by simpa using hl)
-      exact ⟨mid, by rw [h.1, hm]; rfl⟩
-
 /-- **no_lost_update_partial.**  Two different requests of the pool write consumer `cu` (existing,
 not creatable by the pool; non-empty entries) carrying generations `gi` and `gj`, and both answer
 2xx.  Then their commit steps are ordered and the one committing LATER carries the strictly LARGER
@@ -209,7 +178,7 @@ theorem no_lost_update_partial (cfg : Config) (ops : List (Op R))
       (prei.length < prej.length → gi < gj) ∧ (prej.length < prei.length → gj < gi) := by
   obtain ⟨prei, posti, hsi, hCi, hBi⟩ := consumer_commit_sees_generation cfg ops hops db hU cu c0 gi hex hnc sched hi hci hia ha
   obtain ⟨prej, postj, hsj, hCj, hBj⟩ := consumer_commit_sees_generation cfg ops hops db hU cu c0 gj hex hnc sched hj hcj hjb hb
-  have hpool := pool_evo cfg ops hops cu hnc
+  have hpool := pool_evo_cons cfg ops hops cu hnc
   have hW : ∀ s s' : DB R, QEvo (fun u => u ≠ cu) s s' → WCons cu c0 s → WCons cu c0 s' :=
     fun s s' q h => WCons.evo (fun h => h rfl) q h
   -- a commit of generation `g1` followed later by a state in which the consumer has `g2`: `g1 < g2`
